@@ -324,13 +324,13 @@ class HttpWebServerPlugin(HttpProtocolHandlerPlugin):
         return False
 
     def _try_static_or_404(self, path: bytes) -> None:
-        path = text_(path).split('?', 1)[0]
         # Never serve anything outside of the static server directory,
         # e.g. for paths containing parent directory segments.
         try:
+            path = text_(path).split('?', 1)[0]
             root = os.path.realpath(self.flags.static_server_dir)
             target = os.path.realpath(root + path)
-        except ValueError:  # e.g. embedded null byte
+        except ValueError:  # e.g. embedded null byte, octets that are not UTF-8
             self.client.queue(NOT_FOUND_RESPONSE_PKT)
             return
         if target != root and not target.startswith(root + os.sep):
